@@ -44,6 +44,7 @@ def negate_contract():
 
 
 class NegateH(Harness):
+    xcheck = 2
     name = "AtLeast.negate"
     function = "AtLeast.negate"
 
